@@ -275,14 +275,14 @@ def transport_chops(asm, asm2):
         c1, c2 = gc.AXIS_PAIRS_REF[a][0]
         p, q = gc.XYZ[perm[c1]], gc.XYZ[perm[c2]]
         d = [q[i] - p[i] for i in range(3)]
-        return d.index(1) if 1 in d else d.index(-1)
+        return (d.index(1), 1) if 1 in d else (d.index(-1), -1)
     for (b, a), ch in asm.chops.items():
         if any("count" not in c for c in ch):
             return False
-        d = lattice_dir(asm.perms[b], a)
-        a2 = [x for x in range(3) if lattice_dir(asm2.perms[b], x) == d][0]
-        # multi-section chops are direction dependent: keep only the total
-        asm2.chops[(b, a2)] = [dict(count=sum(int(c["count"]) for c in ch))]
+        d, sgn = lattice_dir(asm.perms[b], a)
+        a2, sgn2 = [(x, lattice_dir(asm2.perms[b], x)[1]) for x in range(3) if lattice_dir(asm2.perms[b], x)[0] == d][0]
+        # multi-section chops are direction dependent: the same physical sections, listed along the new axis direction
+        asm2.chops[(b, a2)] = [dict(c) for c in (ch if sgn == sgn2 else list(reversed(ch)))]
     return True
 
 
